@@ -23,6 +23,13 @@ class SyncProp(Prop):
 
     def gen(self, r, i, run):
         cfg = projgen.gen_project(random.Random(r.randrange(1 << 30)), multi=True)
+        if r.random() < 0.12:
+            # a directed family: a function truth next to a class kind and no argparse kind (the shape in which a function
+            # truth can carry a body, see below)
+            for _ in range(40):
+                if cfg["truth"] == "function" and set(cfg["kinds"]) == {"class", "function"}:
+                    break
+                cfg = projgen.gen_project(random.Random(r.randrange(1 << 30)), multi=True)
         # a return entry (type and prose, no default) in 30% of the projects; stale targets never have one
         if not (cfg["ir"].get("returns") and r.random() < 0.6):
             cfg["ir"]["returns"] = None
